@@ -367,8 +367,9 @@ var c15Alphabets = [][]*hx.Spec{
 	{hx.SInt(0), hx.SInt(1), hx.SInt(2)},
 	{hx.SStr("a"), hx.SStr("b"), hx.SStr("B")},
 	{hx.SFloat(0.5), hx.SFloat(1.5), hx.SFloat(2)},
-	{hx.SInt(1), hx.SFloat(1), hx.SInt(2), hx.SFloat(0.5)}, // equal values of different numeric kinds
-	{hx.SBool(true), hx.SBool(false), hx.SNil()},           // false is not nil
+	{hx.SInt(1), hx.SFloat(1), hx.SInt(2), hx.SFloat(0.5)},      // equal values of different numeric kinds
+	{hx.SBool(true), hx.SBool(false), hx.SNil()},                // false is not nil
+	{hx.SInt(-1), hx.SFloat(-0.5), hx.SInt(0), hx.SFloat(-1.5)}, // negative fractions between integers
 }
 
 var c15Filters = []string{"sort", "reverse", "uniq", "compact", "first", "last", "size", "join", "concat"}
@@ -380,8 +381,16 @@ func c15Records(t *rapid.T, n int, key string) []*hx.Spec {
 	typed := mode == 1
 	// and some are what a generic decoder hands out (map[any]any), or have a named string type as key type
 	keyRep := map[int]string{3: "anykey", 4: "namedkey"}[mode]
+	// some record sets share one id, and differ - if at all - in which further keys they hold, some of them bound to nil
+	sameID := !typed && rapid.IntRange(0, 3).Draw(t, "same-id") == 0
 	for i := 0; i < n; i++ {
 		rec := hx.SMap("id", hx.SInt(int64(i+1)))
+		if sameID {
+			rec = hx.SMap("id", hx.SInt(1))
+			if y := rapid.IntRange(0, 3).Draw(t, "nilkey"); y > 0 {
+				rec.Keys, rec.E = append(rec.Keys, fmt.Sprintf("y%d", y)), append(rec.E, hx.SNil())
+			}
+		}
 		for j, extra := 0, rapid.IntRange(0, 3).Draw(t, "extra"); j < extra; j++ {
 			rec.Keys, rec.E = append(rec.Keys, fmt.Sprintf("x%d", j)), append(rec.E, hx.SInt(int64(j)))
 		}
